@@ -1,6 +1,7 @@
 """C02 - annotations reach exactly the ancestors; records stay direct (clauses: KIND, PAIR, DOM/SELECT early exit, PHASE record lists; WIT thorough)"""
 import re
 from engines import kind_elements, kind_of_callee, MutSummary, positive_edges, bool_polarity
+from engines import check_complete_iteration
 from prov import Prov, params_of, field_names
 from props import codec
 
@@ -181,6 +182,8 @@ def run(ck, prog, ctx):
                 key |= params_of(pvn.of_operand(lb, lb.blocks[a[4]].term.args[1]), lb.id)
         ida = params_of(pvn.of_operand(lb, at_.args[1]), lb.id)
         ck.ob("DOM", "link_%s_term/links" % stem, key == {2} and ida == {3}, "link_%s_term adds record `%s` to the term looked up by `%s`" % (stem, "/".join(lb.local_name(p) for p in ida), "/".join(lb.local_name(p) for p in key)), where=lb.where(at_.line))
+
+    check_complete_iteration(ck, "DOM", prog, [B + "link_%s_term" % v[0] for v in KINDS.values()] + [B + ("add_genes_from_bytes" if k == "Gene" else "add_%s_from_bytes" % v[0]) for k, v in KINDS.items()], "the ancestors / the decoded records' terms")
 
     # ------------------------------------------------------------------ PHASE: writers of the records' `hpos`
     rec_rx = r"annotations::(gene::Gene|omim_disease::OmimDisease|orpha_disease::OrphaDisease)$"
